@@ -8,7 +8,10 @@ Bind: (1) GEN -> replay: TLC exports every history of the operation alphabet up
      host loaders, module files in a temp package.path) and every step is
      compared with TLC's expectation; every mismatch is re-run and re-decided by
      RequireTrace.tla before it counts.
-     (2) TRACE: seeded random longer histories (4 names incl. a dotted one) and
+     Names with 0-3 dots, templates with several marks and files placed where a
+     wrong name-to-file conversion would look (decoys) are part of the alphabet.
+     (2) TRACE: seeded random longer histories (4 names out of 10 with 0-3 dots,
+     leading/trailing/doubled dots; three package.path settings) and
      the libraries opened by the host are executed and what the real code showed
      is validated by TLC against Require.tla (RequireTrace.tla)."""
 import json, os, random, time
@@ -20,6 +23,19 @@ FIELDS = ("log", "res", "ld", "gl", "fl", "fg")
 STDLIBS = ["package", "table", "io", "os", "string", "math", "debug", "channel", "coroutine", "_G"]
 WORKERS = 8
 RECHECK_PER_KEY = 25      # mismatches re-run and re-decided by RequireTrace per case key and GEN configuration
+
+
+# package.path templates: template > "/"-separated segments > pieces ("?" = mark); same shape as in RequireMC.tla
+P1 = [[["d1"], ["?", ".lua"]], [["d2"], ["?", ".lua"]]]
+P2 = [[["d1"], ["?", ".lua"]], [["d2"], ["?"], ["init.lua"]], [["d3"], ["?"], ["x-", "?", ".lua"]]]
+P3 = [[["d1"], ["?", ".lua"]], [["d2", "sub"], ["?"], ["?", ".lua"]], [["d3"], ["m-", "?", "-", "?", ".lua"]], [["d4"], ["?", ".lua"]]]
+GEN_NAMES = {1: ["a", "b", "c"], 2: ["a", "p.q", "p.q.r", "p.q.r.s"]}
+GEN_PATHS = {1: P1, 2: P2}
+
+
+def mkrec(i, names, nb, h, path):
+    """input record; parts = the dot-separated components (RequireTrace checks NameStr(parts) = name)"""
+    return {"id": i, "names": names, "parts": [n.split(".") for n in names], "nb": nb, "path": path, "h": h}
 
 
 # --------------------------------------------------------------------------
@@ -52,7 +68,7 @@ def run_harness(recs, tag):
 
 def slim(rec):
     """the record as RequireTrace reads it (diagnostic fields dropped)."""
-    return {"id": rec["id"], "names": rec["names"], "nb": rec["nb"], "h": rec["h"],
+    return {"id": rec["id"], "names": rec["names"], "parts": rec["parts"], "nb": rec["nb"], "path": rec["path"], "h": rec["h"],
             "obs": [{k: o[k] for k in FIELDS} for o in rec["obs"]]}
 
 
@@ -150,8 +166,25 @@ def outcome(r):
     if r[0] == "ok":
         return "ok(" + vkind(r[1]) + ")"
     if r[0] == "err":
-        return "err." + r[1] + ("[tried=%s%s]" % (r[3], r[4]) if r[1] == "notfound" and len(r) >= 5 else "")
+        return "err." + r[1]
     return r[0]
+
+
+def dots(name):
+    """class of a module name for the path search: number of dots"""
+    c = name.count(".")
+    return ":name-dots=%s" % (c if c < 2 else "2+")
+
+
+def nf_diff(a, b):
+    """two 'module not found' outcomes <<err, notfound, name, P, files...>>: what differs in what was tried"""
+    if a[2] != b[2]:
+        return "not-found-message:module-name"
+    if a[3] != b[3]:
+        return "not-found-message:preload-attempt-not-listed"
+    if len(a) != len(b):
+        return "not-found-message:number-of-files-listed:expected=%d,observed=%d%s" % (len(a) - 4, len(b) - 4, dots(a[2]))
+    return "not-found-message:file-names-tried-differ" + dots(a[2])
 
 
 def source_of(rec, lid):
@@ -162,7 +195,7 @@ def source_of(rec, lid):
     if op["op"] == "preload":
         return "preload-host" if op["host"] else "preload-lua"
     if op["op"] == "file":
-        return "file%d" % op["d"]
+        return "file-at-decoy-name" if op.get("s", 1) != 1 else "file"
     return "?"
 
 
@@ -177,8 +210,10 @@ def symptom(rec, field, exp, got):
                 return "loader-argument-is-not-the-module-name"
             sa, sb = source_of(rec, a[1]), source_of(rec, b[1])
             if sa[:4] != sb[:4]:        # preload vs file: the kind of searcher is what matters
-                sa, sb = sa.split("-")[0].rstrip("12"), sb.split("-")[0].rstrip("12")
-            return "wrong-loader-ran:expected=%s,observed=%s" % (sa, sb)
+                sa, sb = [x.split("-")[0] if x.startswith("preload") else x for x in (sa, sb)]
+            return "wrong-loader-ran:expected=%s,observed=%s%s" % (sa, sb, dots(a[2]) if "file" in sa + sb else "")
+        if a and b and a[0] == "res" and b[0] == "res" and a[:3] == b[:3] and a[3:5] == b[3:5] == ["err", "notfound"]:
+            return nf_diff(a[3:], b[3:])
         if a and b and a[0] == "res" and b[0] == "res" and a[:3] == b[:3]:
             return "nested-require:expected=%s,observed=%s%s" % (outcome(a[3:]), outcome(b[3:]),
                                                                  ",other-instance" if outcome(a[3:]) == outcome(b[3:]) else "")
@@ -187,10 +222,16 @@ def symptom(rec, field, exp, got):
         if a and a[0] == "res" and (b is None or b[0] == "res"):
             return "nested-require:expected=%s,observed=raises" % outcome(a[3:])
         if a and a[0] == "run":
-            return "loader-not-run:%s:observed=%s" % (source_of(rec, a[1]).split("-")[0], outcome(got["res"]) if b is None else b[0])
+            src = source_of(rec, a[1])
+            return "loader-not-run:%s:observed=%s%s" % (src.split("-")[0] if src.startswith("preload") else src,
+                                                        outcome(got["res"]) if b is None else b[0], dots(a[2]) if "file" in src else "")
         if b and b[0] == "run":
-            return "loader-run-unexpectedly:%s:expected=%s" % (source_of(rec, b[1]).split("-")[0], outcome(exp["res"]) if a is None else a[0])
+            src = source_of(rec, b[1])
+            return "loader-run-unexpectedly:%s:expected=%s%s" % (src.split("-")[0] if src.startswith("preload") else src,
+                                                                 outcome(exp["res"]) if a is None else a[0], dots(b[2]) if "file" in src else "")
         return "log:expected=%s,observed=%s" % (a[0] if a else "end", b[0] if b else "end")
+    if field == "res" and exp["res"][:2] == got["res"][:2] == ["err", "notfound"]:
+        return nf_diff(exp["res"], got["res"])
     if field == "res":
         same = outcome(exp["res"]) == outcome(got["res"])
         return "result:expected=%s,observed=%s%s" % (outcome(exp["res"]), outcome(got["res"]), ",other-instance" if same else "")
@@ -257,7 +298,7 @@ def validate_reproduced(recs, tag, verd, stats):
         k = case_key(rec, v)
         perkey[k] = perkey.get(k, 0) + 1
         if perkey[k] <= RECHECK_PER_KEY:
-            again.append({"id": rec["id"], "names": rec["names"], "nb": rec["nb"], "h": rec["h"][:v["pos"]]})
+            again.append(mkrec(rec["id"], rec["names"], rec["nb"], rec["h"][:v["pos"]], rec["path"]))
     if again:
         _, rej2 = validate(run_harness(again, tag + "_re"), tag, verd, stats)
         if len(rej2) != len(again):
@@ -273,7 +314,7 @@ def expand(c, behs):
     if c["op"] == "preload":
         return {"op": "preload", "n": c["n"], "host": c["host"], "beh": behs[c["n"]][c["b"] - 1]}
     if c["op"] == "file":
-        return {"op": "file", "n": c["n"], "d": c["d"], "syn": c["syn"], "beh": behs[c["n"]][c["b"] - 1]}
+        return {"op": "file", "n": c["n"], "path": c["path"], "syn": c["syn"], "beh": behs[c["n"]][c["b"] - 1], "t": c["t"], "s": c["s"]}
     return c
 
 
@@ -293,7 +334,8 @@ def gen_replay(tag, consts, names, verd, stats, cover, fut):
     # TLC's workers print in no fixed order: sort, so that ids (which select the entry path) are reproducible
     leaves = [json.loads(k) for k in sorted(k for k, g in ((json.dumps(g["h"], sort_keys=True), g) for g in lines) if len(g["h"]) == depth)]
     t1 = time.time()
-    recs = [{"id": i + 1, "names": names, "nb": 0, "h": [expand(c, behs) for c in h]} for i, h in enumerate(leaves)]
+    path = GEN_PATHS[int(consts["PathSel"])]
+    recs = [mkrec(i + 1, names, 0, [expand(c, behs) for c in h], path) for i, h in enumerate(leaves)]
     recs = run_harness(recs, tag)
     t2 = time.time()
     checked = set()
@@ -333,7 +375,7 @@ def gen_replay(tag, consts, names, verd, stats, cover, fut):
     # every mismatch is re-run on a fresh interpreter and re-decided by TLC
     nbad = 0
     if bad:
-        again = run_harness([{"id": b["id"], "names": names, "nb": 0, "h": b["h"]} for b in bad.values()], tag + "_re")
+        again = run_harness([mkrec(b["id"], names, 0, b["h"], path) for b in bad.values()], tag + "_re")
         n, rejected = validate(again, tag, verd, stats)
         nbad = len(rejected)
         if nbad != len(bad):
@@ -355,7 +397,10 @@ def gen_replay(tag, consts, names, verd, stats, cover, fut):
 # --------------------------------------------------------------------------
 # random longer histories
 
-RNAMES = ["a", "b", "c", "p.q"]
+# module names with 0 to 3 dots, and leading / trailing / doubled dots (an empty component: the file name gets "//",
+# which denotes the same file as "/")
+RUNIVERSE = ["a", "b", "c", "p.q", "p.q.r", "p.q.r.s", "x.y.z", ".lead", "trail.", "u..v"]
+RPATHS = [P1, P2, P3]
 
 
 def wchoice(rng, pairs):
@@ -368,8 +413,30 @@ def wchoice(rng, pairs):
     return pairs[-1][0]
 
 
-def rand_beh(rng, n, host, plainfam=False):
-    b = rand_beh0(rng, n, host)
+def subst(tpl, comps):
+    """input generation only: the path segments a template denotes when the marks are replaced by comps joined with '/'
+    (the expected file of a module is computed by Require.tla, never here)"""
+    raw = "/".join("".join(seg) for seg in tpl).replace("?", "/".join(comps))
+    return [x for x in raw.split("/") if x]
+
+
+def rand_split(rng, name):
+    """components used to place a file: the right ones (all dots) or, as a decoy, a conversion that leaves dots in"""
+    comps = name.split(".")
+    if len(comps) == 1 or rng.random() < 0.7:
+        return comps, 1
+    k = rng.choice(["first", "last", "none"])
+    if k == "first":
+        alt = [comps[0], ".".join(comps[1:])]
+    elif k == "last":
+        alt = [".".join(comps[:-1]), comps[-1]]
+    else:
+        alt = [name]
+    return (alt, 2) if alt != comps else (comps, 1)
+
+
+def rand_beh(rng, n, host, names, allow_module, plainfam=False):
+    b = rand_beh0(rng, n, host, names, allow_module)
     # family "plain": a loader either assigns package.loaded[name] itself or returns a non-nil value, not both
     if plainfam and b["ret"] != "none" and (b["pre"] != "none" or b["post"] != "none"):
         if rng.random() < 0.5:
@@ -379,41 +446,59 @@ def rand_beh(rng, n, host, plainfam=False):
     return b
 
 
-def rand_beh0(rng, n, host):
+def rand_beh0(rng, n, host, names, allow_module):
     pre = wchoice(rng, [("none", 60), ("tbl", 15), ("num", 5), ("false", 4), ("nil", 4), ("module", 12)])
-    if pre == "module" and (host or "." in n):
+    if pre == "module" and (host or not allow_module):
         pre = "none"
     reqs = []
     if pre not in ("false", "nil"):
         for _ in range(wchoice(rng, [(0, 50), (1, 30), (2, 15), (3, 5)])):
-            reqs.append({"n": rng.choice(RNAMES), "prot": rng.random() < 0.5})
+            reqs.append({"n": rng.choice(names), "prot": rng.random() < 0.5})
     post = wchoice(rng, [("none", 80), ("tbl", 8), ("num", 4), ("false", 4), ("nil", 4)])
     return {"pre": pre, "reqs": reqs, "post": post, "fail": rng.random() < 0.15,
             "ret": wchoice(rng, [("none", 35), ("tbl", 40), ("num", 15), ("false", 10)])}
 
 
-def rand_hist(rng, n, plainfam=False):
-    """family "plain" (every second history) leaves out the two constructs the open findings of the unchanged tree
-    are about (assign-and-return loaders, RegisterModule), so that long histories stay judged to their end."""
+def rand_names(rng):
+    if rng.random() < 0.15:
+        return ["a", "b", "c", "d"]                       # module() in files needs undotted names only
+    names = rng.sample(RUNIVERSE, 4)
+    if not any(n.count(".") >= 2 for n in names):
+        names[rng.randrange(4)] = rng.choice([n for n in RUNIVERSE if n.count(".") >= 2 and n not in names])
+    return names
+
+
+def rand_hist(rng, n, names, path, plainfam=False):
+    """names: the 4 module names of this history; path: its initial package.path.  Files are placed where a template
+    puts some name (70 % with all dots converted, else at a decoy).  family "plain" (every second history) leaves out
+    assign-and-return loaders and RegisterModule (the constructs former findings were about)."""
     h = []
-    plain = [x for x in RNAMES if "." not in x]
+    plain = [x for x in names if "." not in x]
+    allplain = len(plain) == len(names)
+    cur = path
     for _ in range(n):
-        k = wchoice(rng, [("req", 45), ("preload", 15), ("file", 12), ("clear", 10), ("unpreload", 4), ("rmfile", 4),
-                          ("glob", 4), ("register", 0 if plainfam else 6)])
-        nm = rng.choice(RNAMES)
+        k = wchoice(rng, [("req", 45), ("preload", 12), ("file", 16), ("clear", 10), ("unpreload", 4), ("rmfile", 4),
+                          ("glob", 4 if plain else 0), ("register", 0 if plainfam or not plain else 6), ("path", 2)])
+        nm = rng.choice(names)
         if k == "req" or k == "clear" or k == "unpreload":
             h.append({"op": k, "n": nm})
         elif k == "preload":
             host = rng.random() < 0.5
-            h.append({"op": "preload", "n": nm, "host": host, "beh": rand_beh(rng, nm, host, plainfam)})
-        elif k == "file":
-            h.append({"op": "file", "n": nm, "d": rng.choice([1, 2]), "syn": rng.random() < 0.08, "beh": rand_beh(rng, nm, False, plainfam)})
-        elif k == "rmfile":
-            h.append({"op": "rmfile", "n": nm, "d": rng.choice([1, 2])})
+            h.append({"op": "preload", "n": nm, "host": host, "beh": rand_beh(rng, nm, host, names, "." not in nm, plainfam)})
+        elif k == "file" or k == "rmfile":
+            comps, sp = rand_split(rng, nm)
+            t = rng.randrange(len(cur))
+            op = {"op": k, "n": nm, "path": subst(cur[t], comps), "t": t + 1, "s": sp}
+            if k == "file":
+                op.update(syn=rng.random() < 0.08, beh=rand_beh(rng, nm, False, names, allplain, plainfam))
+            h.append(op)
         elif k == "glob":
             h.append({"op": "glob", "n": rng.choice(plain), "kind": rng.choice(["tbl", "num", "nil"])})
-        else:
+        elif k == "register":
             h.append({"op": "register", "n": rng.choice(plain), "f": rng.choice(["f1", "f2"])})
+        else:
+            cur = rng.choice(RPATHS)
+            h.append({"op": "path", "n": "", "tpl": cur})
     return h
 
 
@@ -431,31 +516,38 @@ def run(tier):
     thorough = tier == "thorough"
     # 1. MC: laws of the reference semantics
     # (host loaders differ from Lua preload functions only in the harness, so MC leaves "H" out)
+    def C(NNames, BehIdx, Srcs, Extra, MaxHist, NameSel=1, PathSel=1, Decoys="FALSE"):
+        return {"NNames": str(NNames), "NameSel": str(NameSel), "PathSel": str(PathSel), "BehIdx": BehIdx, "Srcs": Srcs,
+                "Decoys": Decoys, "Extra": Extra, "MaxHist": str(MaxHist)}
+    DOTS = dict(NameSel=2, PathSel=2, Decoys="TRUE")
     mcs = [("all behaviours, preload and both path directories, all operations, 2 names",
-            {"NNames": "2", "BehIdx": ALLB, "Srcs": '{"L","F1","F2"}', "Extra": "TRUE", "MaxHist": "3"}),
-           ("3 names, nested/cyclic/failing loaders",
-            {"NNames": "3", "BehIdx": "{1,4,5,6,11,14}", "Srcs": '{"L","F1"}', "Extra": "FALSE", "MaxHist": "4" if thorough else "3"})]
+            C(2, ALLB, '{"L","F1","F2"}', "TRUE", 3)),
+           ("3 names, nested/cyclic/failing loaders", C(3, "{1,4,5,6,11,14}", '{"L","F1"}', "FALSE", 4 if thorough else 3)),
+           ("names with 0-3 dots (quick: 0-2), 3 templates with several marks, files also at decoy names",
+            C(4 if thorough else 3, "{1,2,4}" if thorough else "{1,4}", '{"L","F1","F2","F3"}', "FALSE", 3, **DOTS))]
     if thorough:
         mcs.append(("3 names, depth 5, require/clear/preload of value, fail, require-other, require-self",
-                    {"NNames": "3", "BehIdx": "{1,4,5,6}", "Srcs": '{"L"}', "Extra": "FALSE", "MaxHist": "5"}))
+                    C(3, "{1,4,5,6}", '{"L"}', "FALSE", 5)))
         mcs.append(("2 names, depth 4, every behaviour as Lua preload or file, all operations",
-                    {"NNames": "2", "BehIdx": ALLB, "Srcs": '{"L","F1"}', "Extra": "TRUE", "MaxHist": "4"}))
+                    C(2, ALLB, '{"L","F1"}', "TRUE", 4)))
     # TLC jobs run side by side (two at a time, 4 workers each) while the replay proceeds
     vlib.specdir()
     pool = ThreadPoolExecutor(max_workers=2)
     mcfut = []
     # 2. GEN -> replay
-    N2, N3 = ["a", "b"], ["a", "b", "c"]
-    gens = [("q2-every-behaviour", N2, {"NNames": "2", "BehIdx": ALLB, "Srcs": '{"L","H"}', "Extra": "FALSE", "MaxHist": "3"}),
-            ("q2-every-source-and-op", N2, {"NNames": "2", "BehIdx": "{1,4,8}", "Srcs": '{"L","H","F1","F2"}', "Extra": "TRUE", "MaxHist": "3"}),
-            ("q2-depth4", N2, {"NNames": "2", "BehIdx": "{1,2,4,6,8,9}", "Srcs": '{"L","H"}', "Extra": "FALSE", "MaxHist": "4"}),
-            ("q3-cycles", N3, {"NNames": "3", "BehIdx": "{1,4,5,6,11,14}", "Srcs": '{"L"}', "Extra": "FALSE", "MaxHist": "4"})]
+    gens = [("q2-every-behaviour", C(2, ALLB, '{"L","H"}', "FALSE", 3)),
+            ("q4-dotted-names-path-search", C(4, "{1}", '{"F1","F2","F3"}', "FALSE", 3, **DOTS)),
+            ("q2-every-source-and-op", C(2, "{1,4,8}", '{"L","H","F1","F2"}', "TRUE", 3)),
+            ("q2-depth4", C(2, "{1,2,4,6,8,9}", '{"L","H"}', "FALSE", 4)),
+            ("q3-cycles", C(3, "{1,4,5,6,11,14}", '{"L"}', "FALSE", 4))]
     if thorough:
-        gens = [("t2-every-behaviour-depth4", N2, {"NNames": "2", "BehIdx": ALLB, "Srcs": '{"L","H"}', "Extra": "FALSE", "MaxHist": "4"}),
-                ("t2-everything-depth3", N2, {"NNames": "2", "BehIdx": "{1,2,3,4,5,6,7,8,9,10,11,12,15}", "Srcs": '{"L","H","F1","F2"}', "Extra": "TRUE", "MaxHist": "3"}),
-                ("t3-cycles-depth5", N3, {"NNames": "3", "BehIdx": "{1,4,5,6}", "Srcs": '{"L"}', "Extra": "FALSE", "MaxHist": "5"}),
-                ("t3-nested-files-depth4", N3, {"NNames": "3", "BehIdx": "{1,4,5,6,11,14}", "Srcs": '{"L","F1"}', "Extra": "FALSE", "MaxHist": "4"}),
-                ("t2-depth5", N2, {"NNames": "2", "BehIdx": "{1,4,5,8}", "Srcs": '{"L","F1"}', "Extra": "FALSE", "MaxHist": "5"})]
+        gens = [("t2-every-behaviour-depth4", C(2, ALLB, '{"L","H"}', "FALSE", 4)),
+                ("t4-dotted-names-path-search", C(4, "{1,4}", '{"L","F1","F2","F3"}', "FALSE", 3, **DOTS)),
+                ("t2-everything-depth3", C(2, "{1,2,3,4,5,6,7,8,9,10,11,12,15}", '{"L","H","F1","F2"}', "TRUE", 3)),
+                ("t3-cycles-depth5", C(3, "{1,4,5,6}", '{"L"}', "FALSE", 5)),
+                ("t3-nested-files-depth4", C(3, "{1,4,5,6,11,14}", '{"L","F1"}', "FALSE", 4)),
+                ("t2-depth5", C(2, "{1,4,5,8}", '{"L","F1"}', "FALSE", 5))]
+    gens = [(tag, GEN_NAMES[int(c["NameSel"])][:int(c["NNames"])], c) for tag, c in gens]
     genfut = [pool.submit(vlib.run_tlc, "RequireMC", "RequireGen", consts=consts, timeout=1500, workers=4) for _, _, consts in gens]
     mcfut = [pool.submit(vlib.run_tlc, "RequireMC", "RequireMC", consts=consts, timeout=1500, workers=4) for _, consts in mcs]
     try:
@@ -468,20 +560,24 @@ def run(tier):
             stats["states"] += r.distinct
             stats["transitions"] += r.generated
             mc.append({"what": what, "constants": consts, "generated": r.generated, "distinct": r.distinct})
-            vlib.log("[C20] MC %s: %d generated / %d distinct states, 3 invariants + 11 step laws hold (%.0fs)" % (what, r.generated, r.distinct, r.wall))
+            vlib.log("[C20] MC %s: %d generated / %d distinct states, 3 invariants + 12 step laws hold (%.0fs)" % (what, r.generated, r.distinct, r.wall))
     finally:
         pool.shutdown(wait=True, cancel_futures=True)
     # 3. TRACE: libraries opened by the host, random longer histories
     total = 0
-    recs = [{"id": i + 1, "names": [n], "nb": 1, "h": [{"op": "req", "n": n}]} for i, n in enumerate(STDLIBS)]
+    recs = [mkrec(i + 1, [n], 1, [{"op": "req", "n": n}], P1) for i, n in enumerate(STDLIBS)]
     recs = run_harness(recs, "stdlib")
     n, nrej, _, _ = validate_reproduced(recs, "stdlib", verd, stats)
     total += n
     vlib.log("[C20] TRACE stdlib: %d libraries opened by the host decided (require(name) == _G[name] == package.loaded[name]), %d rejected" % (n, nrej))
     rng = random.Random(vlib.seed() * 7919 + 20)
     nrand = 12000 if thorough else 1500
-    hists = [rand_hist(rng, rng.choice([8, 16, 30] if not thorough else [10, 25, 50]), plainfam=(i % 2 == 1)) for i in range(nrand)]
-    recs = [{"id": i + 1, "names": RNAMES, "nb": 0, "h": h} for i, h in enumerate(hists)]
+    recs = []
+    for i in range(nrand):
+        names, path = rand_names(rng), rng.choice(RPATHS)
+        recs.append(mkrec(i + 1, names, 0, rand_hist(rng, rng.choice([8, 16, 30] if not thorough else [10, 25, 50]), names, path,
+                                                     plainfam=(i % 2 == 1)), path))
+    hists = [r["h"] for r in recs]
     t1 = time.time()
     recs = run_harness(recs, "random")
     t2 = time.time()
@@ -503,7 +599,7 @@ def run(tier):
         "rule": "GEN: every history of the stated operation alphabet up to MaxHist (reductions: first operation concerns name a, "
                 "no-op clears/removals skipped, adjacent installations only in increasing slot order since they commute) is exported with TLC's expected observation; maximal histories are run and every step of "
                 "every prefix is compared (steps_compared = exported transitions); non-trivial = installs a loader and requires something. "
-                "TRACE: seeded random histories over 4 names, distinct by canonical hash, each step validated by RequireTrace.tla.",
+                "TRACE: seeded random histories over 4 of 10 names (0-3 dots), distinct by canonical hash, each step validated by RequireTrace.tla.",
         "gen_configs": cover["gen"], "mc_runs": mc,
         "gen_probe_steps": cover["probes"], "gen_probe_steps_running_loaders": cover["probes_running_loaders"],
         "gen_result_classes": cover["res_classes"],
@@ -517,7 +613,10 @@ def run(tier):
         "name conflict / file that does not compile); their wording is not compared",
         "loaders follow the behaviour template pre-assign, nested requires, post-assign, fail, return; loaders that un-mark themselves "
         "before requiring (unbounded recursion in Lua itself) are excluded",
-        "package.loaders, package.loaded and package.preload are not replaced by other tables; package.path has two templates",
+        "package.loaders, package.loaded and package.preload are not replaced by other tables; package.path is one of three template "
+        "lists (2-4 entries, up to two marks per template, marks inside a segment) and is replaced mid-history only in the random part",
+        "module names: a, b, c / names with 1-3 dots / a leading, a trailing and a doubled dot; the name-to-file conversion is the "
+        "specification's (CandRaw/CandNorm): the harness writes files at paths it is given and reports the file names a message lists",
         "module()/RegisterModule/global assignment only with undotted names; package.seeall, loadlib and coroutines are not exercised",
         "the steps of a history after its first difference are not judged (a listed finding masks the rest of the histories it occurs in)"])
     return rc
@@ -530,6 +629,6 @@ def replay(path):
     verd = vlib.Verdicts(PROP)
     verd.findings = []
     stats = {"states": 0, "transitions": 0, "steps_validated": 0}
-    again = run_harness([{"id": r0["id"], "names": r0["names"], "nb": r0["nb"], "h": r0["h"]}], "replay")
+    again = run_harness([mkrec(r0["id"], r0["names"], r0["nb"], r0["h"], r0["path"])], "replay")
     validate(again, rec["replay"].get("config", "replay"), verd, stats)
     return verd.finish()
